@@ -1002,6 +1002,25 @@ func ruleEqualLens(c *Ctx) []Ob {
 		}
 	}
 	s.check(okFalse, "default", c.Pos(fn.Pos()), "other kinds compare unequal (field is written)", "no `return false` for other kinds")
+	// the answer is the comparison itself: no path answers "equal" without having compared the two values with the kind's type
+	for _, b := range fn.Blocks {
+		ret, ok := b.Instrs[len(b.Instrs)-1].(*ssa.Return)
+		if !ok || len(ret.Results) != 1 {
+			continue
+		}
+		okRet := false
+		switch x := ret.Results[0].(type) {
+		case *ssa.Const:
+			okRet = x.Value != nil && x.Value.ExactString() == "false"
+		case *ssa.BinOp:
+			for _, cb := range cases {
+				if cb == x {
+					okRet = true
+				}
+			}
+		}
+		s.check(okRet, "answer", c.InstrPos(ret), "returns the typed comparison (or false)", "Equal returns "+path(ret.Results[0])+" here, which is not the kind's typed comparison of the two values: a short cut (same data pointer, same first word, ...) can call two different values equal, and a field that differs from its default would then be omitted")
+	}
 	return s.obs
 }
 
